@@ -43,8 +43,21 @@ func (m *monC05) PostCall(s *Sim, c *Call) {
 	if post.Status.Canary != nil && post.Spec.Strategy.Canary != nil && post.Spec.Strategy.Canary.Replicas != nil {
 		if want, ok := resolvePct(post.Spec.Strategy.Canary.Replicas, m.maxNodes, true); ok && want >= 0 {
 			s.Stats.NonVacuous["C04.canary-status"]++
-			if len(post.Status.Canary.Nodes) > want {
-				s.Violate("C04", "M2", "", "%s recorded %d canary nodes, replicas %s resolves to at most %d", t.Label(), len(post.Status.Canary.Nodes), post.Spec.Strategy.Canary.Replicas.String(), want)
+			// "never ADDS nodes beyond the resolved replicas": judged when the list grows
+			had := map[string]bool{}
+			if pre.Status.Canary != nil {
+				for _, n := range pre.Status.Canary.Nodes {
+					had[n] = true
+				}
+			}
+			added := 0
+			for _, n := range post.Status.Canary.Nodes {
+				if !had[n] {
+					added++
+				}
+			}
+			if added > 0 && len(post.Status.Canary.Nodes) > want {
+				s.Violate("C04", "M2", "", "%s added %d canary nodes for a total of %d, replicas %s resolves to at most %d", t.Label(), added, len(post.Status.Canary.Nodes), post.Spec.Strategy.Canary.Replicas.String(), want)
 			}
 		}
 	}
@@ -300,7 +313,14 @@ func (m *monC05) checkCanaryNodes(s *Sim, t *Task, v *SyncView, st *edsv1.Extend
 	if !ok1 || !ok2 || wantLo < 0 || wantHi < 0 {
 		return
 	}
-	if len(nodes) > wantHi {
+	addedNow := 0
+	for _, n := range nodes {
+		if !prev[n] {
+			addedNow++
+		}
+	}
+	// "never exceeds it through the controller's own choice": judged when this reconcile added nodes
+	if len(nodes) > wantHi && addedNow > 0 {
 		s.Violate("C15", "count", "more", "%s: %d canary nodes, replicas %s resolves to %d", t.Label(), len(nodes), can.Replicas.String(), wantHi)
 	}
 	if can.Replicas.Type == 1 {
